@@ -518,12 +518,8 @@ func genUndTraverse(g *vlib.G) {
 				for v := 0; v < nVariants; v++ {
 					// the full filter x start x until product runs on the
 					// deterministic ascending variant of every id map and on
-					// the gonum types under the sparse map (n=6: ident/asc and
-					// sparse/simple); WalkAll everywhere.
+					// the gonum types under the sparse map; WalkAll everywhere.
 					full := v == vOrdAsc || (idk == idSparse && v != vOrdDesc) || s.n <= 4
-					if s.n >= 6 {
-						full = (idk == idIdentity && v == vOrdAsc) || (idk == idSparse && v == vSimple)
-					}
 					b := build(&s, idk, v)
 					run(t, "und-traverse", key, idk, v, func(c *chk) {
 						if full {
